@@ -82,3 +82,29 @@ Proof.
   eexists. eexists. split; [reflexivity|]. simpl. rewrite E. repeat split.
   unfold siblings_not_started. intros H. apply filter_In in H. destruct H as [_ H]. rewrite Nat.eqb_refl in H. discriminate.
 Qed.
+
+(* a sweep pushes a task-level message only for a task that has NO message in the queue: it never duplicates the
+   message a healthy run already holds for that task *)
+Theorem recover_no_duplicate_task_message s i st m :
+  In m (recover_stage s i st) ->
+  match m with
+  | MRunTask j t | MStartTask j t => j = i /\ has_pending_for_task s i t = false
+  | MStartStage j _ => j = i
+  | _ => False
+  end.
+Proof.
+  unfold recover_stage. destruct (status_eqb (s_status st) RUNNING).
+  - match goal with |- context [match ?x with [] => _ | _ :: _ => _ end] => destruct x as [|a la] eqn:E end.
+    + destruct (negb _ && existsb _ _); [intros []|].
+      match goal with |- context [match ?x with [] => _ | _ :: _ => _ end] => destruct x as [|t lt] end.
+      * intros [H|[]]. subst m. reflexivity.
+      * destruct (_ && _).
+        -- destruct (has_pending_for_task s i t) eqn:P; [intros []|]. intros [H|[]]. subst m. auto.
+        -- intros [H|[]]. subst m. reflexivity.
+    + clear E. generalize (a :: la). intros l. induction l as [|t l IH]; simpl; [intros []|].
+      intros H. apply in_app_or in H. destruct H as [H|H]; [|apply IH; exact H].
+      destruct (has_pending_for_task s i t) eqn:P; [destruct H|]. destruct H as [H|[]]. subst m. auto.
+  - destruct (status_eqb (s_status st) NOT_STARTED); [|intros []].
+    destruct (_ || _); [intros [H|[]]; subst m; reflexivity|].
+    destruct (can_start _ _ _ _); [intros [H|[]]; subst m; reflexivity|intros []].
+Qed.
